@@ -107,7 +107,11 @@ Qed.
 (* ---- C27: the fee of an accepted transaction ------------------------------------------------------ *)
 Definition burn_of (s : st) (t : tx) : Z :=
   match t_data t with
-  | CreateToken _ symlen _ _ _ _ _ _ => Z.max 0 (t_gas_price t * ticker_price (s_prices s) symlen)
+  | CreateToken _ symlen _ _ _ _ _ _ =>
+    match base_of (s_prices s) (t_gas_price t * ticker_price (s_prices s) symlen) with
+    | inl sp => Z.max 0 sp
+    | inr _ => 0
+    end
   | _ => 0
   end.
 
@@ -116,7 +120,8 @@ Lemma symbol_branch_deltas s t :
   forall a k, bal_deltas (snd (symbol_branch s t)) a k = if hit zero_address 0 a k then burn_of s t else 0.
 Proof.
   unfold symbol_branch, burn_of. destruct (t_data t); try (split; [reflexivity|intros a k; destruct (hit _ _ _ _); reflexivity]).
-  destruct (0 <? t_gas_price t * ticker_price (s_prices s) symlen) eqn:E.
+  destruct (base_of _ _) as [sp|c]; [|split; [reflexivity|intros a k; destruct (hit _ _ _ _); reflexivity]].
+  destruct (0 <? sp) eqn:E.
   - apply Z.ltb_lt in E. rewrite Z.max_r by lia. cbn [snd]. split; [unfold rpool_deltas; cbn; lia|].
     intros a k. unfold bal_deltas. cbn. destruct (hit _ _ _ _); lia.
   - apply Z.ltb_ge in E. rewrite Z.max_l by lia. cbn [snd]. split; [reflexivity|intros a k; destruct (hit _ _ _ _); reflexivity].
@@ -135,14 +140,36 @@ Proof.
   destruct (symbol_branch_deltas s t) as [H1 H2]. rewrite !apply_effs_rpool, H1, ERP. lia.
 Qed.
 
+(* base-coin price table and base gas coin: the plain formula *)
 Lemma accept_fee_base s t s' :
-  deliver s t = (s', 0) -> t_gas_coin t = 0 ->
+  deliver s t = (s', 0) -> t_gas_coin t = 0 -> p_pcoin (s_prices s) = 0 ->
   s_rpool s' = s_rpool s
                + t_gas_price t * (type_price (s_prices s) (t_data t) + (t_payload_len t + t_service_len t) * p_payload_byte (s_prices s))
                - burn_of s t.
 Proof.
-  intros HD Hg. destruct (accept_fee _ _ _ HD) as (com & EC & ->). unfold calc_commission in EC. rewrite Hg in EC. cbn in EC.
-  injection EC as <-. unfold tx_price, data_len. lia.
+  intros HD Hg Hp. destruct (accept_fee _ _ _ HD) as (com & EC & ->). unfold calc_commission in EC. rewrite Hg in EC. cbn in EC.
+  injection EC as <-. unfold tx_price, tx_price_r, base_of, table_price, data_len. rewrite Hp. cbn.
+  destruct (Z.eqb_spec (t_gas_price t * (type_price (s_prices s) (t_data t) + (t_payload_len t + t_service_len t) * p_payload_byte (s_prices s))) 0); lia.
+Qed.
+
+(* price table denominated in a custom coin: the table price is converted through that coin's pool
+   as ONE amount (gas price times unit price, then converted) *)
+Lemma accept_fee_converted s t s' :
+  deliver s t = (s', 0) -> t_gas_coin t = 0 -> table_price (s_prices s) t <> 0 ->
+  exists v, base_of (s_prices s) (table_price (s_prices s) t) = inl v /\ 0 < v /\
+            s_rpool s' = s_rpool s + v - burn_of s t.
+Proof.
+  intros HD Hg Hne. destruct (accept_fee _ _ _ HD) as (com & EC & ->). unfold calc_commission in EC. rewrite Hg in EC. cbn in EC.
+  injection EC as <-.
+  destruct (deliver_cases _ _ _ _ HD) as [[_ Hc]|[(c0 & effs & _ & _ & _ & _ & Hc)|(effs & _ & EG & _ & _)]]; try congruence.
+  unfold gate in EG.
+  destruct (negb (t_chain_ok t)); [discriminate|]. destruct (negb (coin_exists s (t_gas_coin t))); [discriminate|].
+  destruct (max_payload_len <? _); [discriminate|]. destruct (max_service_len <? _); [discriminate|].
+  destruct (msig_gate s t); [discriminate|]. destruct (negb (_ =? t_nonce t)); [discriminate|].
+  unfold tx_price. unfold tx_price_r in *.
+  destruct (Z.eqb_spec (table_price (s_prices s) t) 0) as [E0|_]; [contradiction|].
+  destruct (base_of (s_prices s) (table_price (s_prices s) t)) as [v|c0]; [|discriminate]. cbn [negb andb] in EG.
+  destruct (Z.ltb_spec 0 v); [|discriminate]. exists v. repeat split; auto.
 Qed.
 
 (* the burned ticker fee arrives at the zero address *)
